@@ -10,7 +10,7 @@
 //!  (1) `Interface::poll` returns: no panic (catch_unwind) and no hang (deterministic device
 //!      call counter inside the poll + a coarse wall-clock watchdog for loops that never touch
 //!      the device);
-//!  (2) afterwards the interface still answers a well-formed request: the prober (re-)teaches
+//!  (2) afterwards the interface still answers well-formed requests (an unfragmented echo, then - 61 s later, when every reassembly slot must have timed out - an echo request in two fragments): the prober (re-)teaches
 //!      its link-layer address (ARP request / neighbor solicitation) and sends an ICMP echo
 //!      request to an address the interface owns at that moment; an echo reply must come out.
 //!      IPv6 is always probed; IPv4 whenever the interface currently has a usable IPv4 subnet
@@ -116,6 +116,9 @@ fn probe_viol(cfg: Cfg, p: &ProbeResult, ctx: &str) -> Option<Viol3> {
     if p.v4 == Some(false) {
         dead.push("v4-echo");
     }
+    if p.frag == Some(false) {
+        dead.push(if cfg.medium == Medium::Ieee802154 { "6lowpan-fragmented-echo" } else { "v4-fragmented-echo" });
+    }
     if dead.is_empty() {
         return None;
     }
@@ -167,7 +170,7 @@ fn run_events(cfg: Cfg, evs: &[Ev], want_log: bool) -> RunOut {
     }
     let p = w.probe();
     if want_log {
-        log.push(format!("probe: v6={:?} v4={:?} outcome={:?} {:?}", p.v6, p.v4, p.outcome, p.log));
+        log.push(format!("probe: v6={:?} v4={:?} fragmented={:?} outcome={:?} {:?}", p.v6, p.v4, p.frag, p.outcome, p.log));
         if !w.app_panics.is_empty() {
             log.push(format!("socket API panics in the application model: {:?}", w.app_panics));
         }
@@ -562,6 +565,8 @@ struct CfgStats {
     reply_classes: BTreeMap<String, u64>,
     effect_classes: u64,
     bfs: Vec<(String, BfsStats)>,
+    pinned: u64,
+    scripts: u64,
     surprise: Vec<String>,
     units: u64,
 }
@@ -588,7 +593,24 @@ fn prepare(cfg: Cfg, ex: &mut Explored) -> Option<Base> {
             return None;
         }
     };
-    let seeds = seeds::catalogue(cfg, &scout.learned);
+    let mut learned = scout.learned.clone();
+    {
+        // which ISS does the listening socket answer with when a SYN is the first frame after
+        // the base state? (deterministic: same PRNG state in every fresh world)
+        let (me, peer): (Vec<u8>, Vec<u8>) = if cfg.v6_peers() { (IFACE6.to_vec(), PEER6.to_vec()) } else { (IFACE4.to_vec(), PEER4.to_vec()) };
+        let iss = World::new(cfg).ok().and_then(|mut w| {
+            let f = World::wrap_ip(cfg.medium, &PEER_MAC, PEER_EXT, &seeds::edge_listen_syn(&me, &peer, seeds::EDGE_ISNS[0]));
+            if !w.inject(&f).is_ok() {
+                return None;
+            }
+            w.take_tx().iter().filter_map(|f| tx_l4(cfg.medium, f)).find(|v| v.proto == 6 && v.sport == P_LISTEN && v.body[13] & 0x12 == 0x12).map(|v| u32::from_be_bytes(v.body[4..8].try_into().unwrap()))
+        });
+        match iss {
+            Some(i) => learned.listen_iss = i,
+            None => ex.machinery.push(format!("[{}] could not learn the listening socket's ISS (no SYN-ACK to the edge SYN)", cfg.name())),
+        }
+    }
+    let seeds = seeds::catalogue(cfg, &learned);
     let base = Base { cfg, fp: scout.fingerprint(), comps: scout.components(), comp_names: scout.component_names(), seeds };
     ex.component_names.insert(cfg.name(), base.comp_names.clone());
     drop(scout);
@@ -609,6 +631,9 @@ fn units_of(base: &Base, tier: Tier) -> Vec<Unit> {
     let mut units: Vec<Unit> = vec![];
     for (si, seed) in base.seeds.iter().enumerate() {
         units.push(Unit::Base(si));
+        if !seed.mutate {
+            continue;
+        }
         for pos in positions(seed) {
             units.push(Unit::Byte(si, pos));
         }
@@ -871,7 +896,7 @@ fn explore(tier: Tier) -> Explored {
     // reply classes x set of interface/socket components whose image changed); fine alphabet
     // (thorough, depth 2): one per (effect, seed).
     let n = merged.len().max(1) as f64;
-    let (coarse_depth, coarse_budget, fine_budget) = if tier == Tier::Quick { (2, 10.0 / n, 0.0) } else { (3, 240.0 / n, 120.0 / n) };
+    let (coarse_depth, coarse_budget, fine_budget) = if tier == Tier::Quick { (2, 12.0 / n, 0.0) } else { (3, 240.0 / n, 120.0 / n) };
     for (ci, (mut st, effects)) in merged {
         let cfg = cfgs[ci];
         let base = bases[ci].as_ref().unwrap();
@@ -879,11 +904,65 @@ fn explore(tier: Tier) -> Explored {
         for ((k, _), f) in &effects {
             coarse.entry(k.clone()).or_insert_with(|| f.clone());
         }
-        let frames: Vec<Vec<u8>> = coarse.into_values().collect();
-        st.bfs.push(("coarse".into(), bfs(cfg, base.fp, &frames, coarse_depth, coarse_budget, &mut ex)));
+        // pinned seeds (lone fragments, TCP sequence-space edge handshakes and their follow-up
+        // segments) are in the alphabet whatever their effect class; level 2 pins only where
+        // the search depth is 2
+        let with_pins = |mut frames: Vec<Vec<u8>>, max_pin: u8| -> Vec<Vec<u8>> {
+            for sd in &base.seeds {
+                if sd.pin != 0 && sd.pin <= max_pin && !frames.contains(&sd.frame) {
+                    frames.push(sd.frame.clone());
+                }
+            }
+            frames
+        };
+        let reps: Vec<Vec<u8>> = coarse.into_values().collect();
+        st.pinned = base.seeds.iter().filter(|s| s.pin != 0).count() as u64;
+        let frames = with_pins(reps, if coarse_depth == 2 { 2 } else { 1 });
+        st.bfs.push(("coarse+pinned".into(), bfs(cfg, base.fp, &frames, coarse_depth, coarse_budget, &mut ex)));
         if tier == Tier::Thorough {
-            let frames: Vec<Vec<u8>> = effects.values().cloned().collect();
-            st.bfs.push(("fine".into(), bfs(cfg, base.fp, &frames, 2, fine_budget, &mut ex)));
+            let frames = with_pins(effects.values().cloned().collect(), 2);
+            st.bfs.push(("fine+pinned".into(), bfs(cfg, base.fp, &frames, 2, fine_budget, &mut ex)));
+        }
+        // scripted sequences: every TCP edge handshake segment followed by every ordered pair
+        // of its follow-up segments (handshake, then e.g. data crossing 2^31, then a
+        // retransmission overlapping the left window edge)
+        let mut scripts: Vec<Vec<Ev>> = vec![];
+        for open in base.seeds.iter().filter(|s| s.name.contains("/tcp-b/") && s.name.ends_with("/open")) {
+            let group = open.name.trim_end_matches("open");
+            let follow: Vec<&Seed> = base.seeds.iter().filter(|s| s.name.starts_with(group) && !s.name.ends_with("/open")).collect();
+            for f1 in &follow {
+                for f2 in &follow {
+                    scripts.push(vec![Ev::Frame(open.frame.clone()), Ev::Frame(f1.frame.clone()), Ev::Frame(f2.frame.clone())]);
+                }
+            }
+        }
+        st.scripts = scripts.len() as u64;
+        let results: Vec<Result<Option<Viol3>, String>> = scripts
+            .par_iter()
+            .map(|evs| {
+                wd_begin(cfg, evs);
+                let r = std::panic::catch_unwind(std::panic::AssertUnwindSafe(|| run_events(cfg, evs, false)));
+                wd_end();
+                match r {
+                    Ok(r) => Ok(r.viol),
+                    Err(e) => Err(format!("HARNESS PANIC in script {}: {} at {}", evs_to_json(evs), panic_msg(e), last_panic_loc())),
+                }
+            })
+            .collect();
+        for (evs, r) in scripts.iter().zip(results) {
+            match r {
+                Ok(Some(v)) => {
+                    if !ex.viols.iter().any(|(x, _, _)| x.sig == v.sig) {
+                        ex.viols.push((v, cfg, evs.clone()));
+                    }
+                }
+                Ok(None) => {}
+                Err(m) => {
+                    if ex.machinery.len() < 20 {
+                        ex.machinery.push(format!("[{}] {}", cfg.name(), m));
+                    }
+                }
+            }
         }
         ex.stats.push(st);
     }
@@ -896,7 +975,7 @@ fn explore(tier: Tier) -> Explored {
 
 pub fn run(tier: Tier) -> i32 {
     let mut rep = Report::new("C03", tier);
-    rep.assumptions.push("bounds: single-frame pass = every seed of the catalogue, every truncation, every single byte of the first 96 bytes (+ DHCP option area, NDISC/DNS message tails, whole 802.15.4 frames) set to the boundary set {0,1,7,8,0x0f,0x28,0x2f,0x3f,0x40,0x7f,0x80,0xf0,0xff,orig^1} (quick) or to all 256 values (thorough), each raw and with all locatable checksums recomputed; thorough adds every pair of positions in the first 40 bytes x every pair of values from {0,1,7,8,0x0f,0x3f,0x40,0x7f,0x80,0xf0,0xff} (checksums recomputed) and all byte strings of length <= 2 (quick: first byte from the boundary set); sequences = BFS to depth 2 (quick) / 3 (thorough) over one representative frame per distinct observable effect (reply classes x changed components) + time advances {0, 1 s, 61 s}; thorough additionally depth 2 over one representative per (effect, seed); BFS levels are cut by a wall-clock budget only with exhaustive=false reported".into());
+    rep.assumptions.push("bounds: single-frame pass = every seed of the catalogue, every truncation, every single byte of the first 96 bytes (+ DHCP option area, NDISC/DNS message tails, whole 802.15.4 frames) set to the boundary set {0,1,7,8,0x0f,0x28,0x2f,0x3f,0x40,0x7f,0x80,0xf0,0xff,orig^1} (quick) or to all 256 values (thorough), each raw and with all locatable checksums recomputed; thorough adds every pair of positions in the first 40 bytes x every pair of values from {0,1,7,8,0x0f,0x3f,0x40,0x7f,0x80,0xf0,0xff} (checksums recomputed) and all byte strings of length <= 2 (quick: first byte from the boundary set); sequences = BFS to depth 2 (quick) / 3 (thorough) over one representative frame per distinct observable effect (reply classes x changed components) + time advances {0, 1 s, 61 s}; thorough additionally depth 2 over one representative per (effect, seed); lone-fragment seeds and the TCP sequence-space edge seeds (handshake segments placing RCV.NXT at 2^31-0x100, 2^31-0x20, 2^31-1, 2^31 and the same below 2^32, with their follow-up segments) are pinned into the alphabets, and every handshake x follow-up x follow-up triple is run as a scripted sequence; BFS levels are cut by a wall-clock budget only with exhaustive=false reported".into());
     rep.assumptions.push("every injected frame meets a FRESH world in the base state and is followed by the probe; pair mutants and 2-byte raw frames get oracle (1)+(2) only (they are not fingerprinted, so they do not count in 'changed state')".into());
     rep.assumptions.push("the application model reads and discards received data after every poll and applies DHCP configuration events (IPv4 address, default route) like examples/dhcp_client.rs; trusted: harness frame builders, independent reply classifier".into());
     rep.assumptions.push("the 802.15.4 worlds used for frame exploration have no joined multicast group (joining one makes the very first poll panic before any frame is received: recorded under notes_outside_C03, not as a violation) and no IPv4; overflow-checks are ON in this profile, so arithmetic overflow on attacker-controlled lengths is observed as a panic".into());
@@ -1020,6 +1099,7 @@ pub fn run(tier: Tier) -> i32 {
                 "probes_run": s.probes_run, "mutants_fingerprinted": s.fingerprinted,
                 "worlds_built": s.worlds_built, "max_device_calls_in_one_poll": s.max_dev_calls,
                 "seeds_not_expected_to_have_an_effect_that_had_one": s.surprise,
+                "seeds_pinned_into_bfs_alphabets": s.pinned, "scripted_three_frame_tcp_edge_sequences": s.scripts,
                 "bfs": s.bfs.iter().map(|(n, b)| json!({"alphabet": n, "events(frames+advances)": b.alphabet, "depth": b.depth, "states": b.states,
                         "transitions": b.transitions, "new_states_per_level": b.per_level, "exhaustive": b.exhaustive, "note": b.note})).collect::<Vec<_>>(),
             }),
@@ -1030,7 +1110,7 @@ pub fn run(tier: Tier) -> i32 {
         *m.entry("mutants_that_changed_state").or_insert(0) += s.changed;
         *m.entry("mutants_that_elicited_a_reply").or_insert(0) += s.replied;
         let bfs_states: u64 = s.bfs.iter().map(|(_, b)| b.states).sum();
-        let bfs_transitions: u64 = s.bfs.iter().map(|(_, b)| b.transitions).sum();
+        let bfs_transitions: u64 = s.bfs.iter().map(|(_, b)| b.transitions).sum::<u64>() + s.scripts;
         *m.entry("bfs_states").or_insert(0) += bfs_states;
         *m.entry("bfs_transitions").or_insert(0) += bfs_transitions;
         states += bfs_states + s.changed;
